@@ -39,6 +39,11 @@ def polygon_matches(lib_polygon, ref_coords, mode: str) -> bool:
     ref_ring = [tuple(float(v) for v in c) for c in ref_coords]
     if mode == 'sequence':
         return ring == ref_ring + [ref_ring[0]]
+    if mode == 'close':
+        # coordinates that are not binary fractions: which of two neighbouring doubles an edge lands on is the
+        # implementation's business (that neighbouring cells agree on it is checked separately)
+        return len(ring) == len(ref_ring) + 1 and len(lib_polygon.interiors) == 0 and \
+            np.allclose(np.array(sorted(set(ring))), np.array(sorted(set(ref_ring))), rtol=0, atol=1e-12)
     if len(lib_polygon.interiors) != 0:
         return False
     return set(ring) == set(ref_ring) and len(ring) == len(ref_ring) + 1 and lib_polygon.equals(Polygon(ref_ring))
